@@ -235,6 +235,16 @@ pub fn run_codecs(case: &Value, _seed: u64) -> Outcome {
             let offs: Vec<usize> = t.char_indices().map(|(i, _)| i).chain(std::iter::once(t.len())).collect();
             for (n, &i) in offs.iter().enumerate() { let mut m = t.clone(); m.insert_str(i, ["\u{e9}", "\u{65e5}", "\u{1f600}"][n % 3]); texts.push(m); }
         }
+        // ... and with its blank-separated parts in another ORDER (every rotation, the reversal, adjacent swaps): a reader
+        // that accepts the parts in any order sees orders its printer never writes
+        let parts: Vec<&str> = t.split(' ').collect();
+        if parts.len() >= 2 && parts.len() <= 6 {
+            for r in 1..parts.len() { let mut p = parts.clone(); p.rotate_left(r); texts.push(p.join(" ")); }
+            let mut rev = parts.clone(); rev.reverse(); texts.push(rev.join(" "));
+            for i in 0..parts.len() - 1 { let mut p = parts.clone(); p.swap(i, i + 1); texts.push(p.join(" ")); }
+            // (an option and its argument move together: "-b main [sub]" -> "[sub] -b main")
+            if let Some(b) = parts.iter().position(|x| *x == "-b") { if b + 2 < parts.len() { let mut p: Vec<&str> = parts[..b].to_vec(); p.extend(&parts[b + 2..]); p.extend(&parts[b..b + 2]); texts.push(p.join(" ")); } }
+        }
         for x in texts { feed_all(&mut o, &x, &feats); feed_templates(&mut o, &x, &feats); }
         o.sample = json!({"value": t, "calls": o.evals});
         return o;
